@@ -10,6 +10,7 @@ import PLS.Model.Scan
 import PLS.Model.Venv
 import PLS.Model.Lsp
 import PLS.Model.Completion
+import PLS.Model.Config
 import PLS.Generated
 import PLS.Spec.Pytest
 import Driver.Sexp
@@ -330,11 +331,15 @@ def runH (c : CaseSt) (t : List String) : Option (String × CaseSt) :=
     some (if r.isEmpty then "none" else
       sorted (r.map (fun x => s!"{x.1}|{(x.2.file.getLast?).getD "?"}|{locStr x.2}")), c)
   | "h_diag" :: p :: rest =>
-    let disabled := match rest with
-      | [d] => if d == "-" then [] else d.splitOn ","
-      | _ => []
+    -- the argument is what `Config::load` found: `-` (no usable table) or the table's
+    -- `disabled_diagnostics` array as written (hex per entry, validated by `Config.fromRaw`)
+    let loaded : Loaded := match rest with
+      | [d] => if d == "-" then .absent else
+          .table { disabledDiagnostics := (d.splitOn ",").map (fun h => if h.startsWith "x" then (unhexStr? (h.drop 1).toString).getD "" else h) }
+      | _ => .absent
+    let cfg := Config.load (fun _ => true) loaded
     let (alts, st) := st.cyclesAlternatives
-    let outs := (alts.map (fun cy => sorted ((st.hDiagnostics disabled (pathOf p) cy).map diagStr))).eraseDups
+    let outs := (alts.map (fun cy => sorted ((st.publish cfg (pathOf p) cy).map diagStr))).eraseDups
     upd (if outs.length == 1 then outs.head! else "ANYOF " ++ " || ".intercalate outs, st)
   | _ => none
 
